@@ -39,7 +39,29 @@ Page0 == <<<<1, 10>>, <<2, 11>>, <<3, 12>>, <<7, 13>>, <<20, 14>>, <<21, 15>>>> 
 \* the same page without output cells, for an empty output segment [20, 20)
 Page1 == <<<<1, 10>>, <<2, 11>>, <<3, 12>>, <<7, 13>>>>
 EoDevs == {"eo:none", "eo:keep-1", "eo:empty", "eo:drop-last", "eo:drop-program-tail", "eo:addr+1@program"}
-PageDevs == EoDevs \cup {"none", "shift-all", "addr+1@program", "addr+1@output", "drop-first", "drop-last", "drop-program-cell", "keep-1", "empty",
+\* deviations of the segment declarations (and, for the relocation, of the page with them)
+SegDevs == {"seg:relocate+1", "seg:relocate+1,stop-kept", "seg:program.begin+1", "seg:program.stop+1", "seg:program.stop-1", "seg:initial_ap=max",
+            "seg:final_ap=max", "seg:final_ap=max-1", "seg:header", "seg:output.stop+1", "seg:output.stop-1", "seg:execution.begin-1"}
+\* (execution.begin+1 / output.begin-1 are not in the catalogue: on real pages the neighbouring cells are consecutive, so they
+\*  declare a different, equally well-formed statement; the model page has a gap there)
+MaxAddr == 1000
+Segs0 == [prog |-> <<1, 5>>, exec |-> <<6, 10>>, out |-> <<20, 22>>]
+SegsOf(d) ==
+  CASE d \in EoDevs -> [Segs0 EXCEPT !.out = <<20, 20>>]
+    [] d = "seg:relocate+1" -> [Segs0 EXCEPT !.prog = <<2, 6>>]
+    [] d = "seg:relocate+1,stop-kept" -> [Segs0 EXCEPT !.prog = <<2, 5>>]
+    [] d = "seg:program.begin+1" -> [Segs0 EXCEPT !.prog = <<2, 5>>]
+    [] d = "seg:program.stop+1" -> [Segs0 EXCEPT !.prog = <<1, 6>>]
+    [] d = "seg:program.stop-1" -> [Segs0 EXCEPT !.prog = <<1, 4>>]
+    [] d = "seg:initial_ap=max" -> [Segs0 EXCEPT !.exec = <<MaxAddr, 10>>]
+    [] d = "seg:final_ap=max" -> [Segs0 EXCEPT !.exec = <<6, MaxAddr>>]
+    [] d = "seg:final_ap=max-1" -> [Segs0 EXCEPT !.exec = <<6, MaxAddr - 1>>]
+    [] d = "seg:output.stop+1" -> [Segs0 EXCEPT !.out = <<20, 23>>]
+    [] d = "seg:output.stop-1" -> [Segs0 EXCEPT !.out = <<20, 21>>]
+    [] d = "seg:execution.begin-1" -> [Segs0 EXCEPT !.exec = <<5, 10>>]
+    [] OTHER -> Segs0
+HeadersOf(d) == IF d = "seg:header" THEN 1 ELSE 0
+PageDevs == EoDevs \cup SegDevs \cup {"none", "shift-all", "addr+1@program", "addr+1@output", "drop-first", "drop-last", "drop-program-cell", "keep-1", "empty",
              "swap-program-cells", "append-after-output", "insert-middle", "value+1@program"}
 PageOf(d) ==
   CASE d = "none" -> Page0
@@ -55,6 +77,8 @@ PageOf(d) ==
     [] d = "append-after-output" -> Append(Page0, <<30, 16>>)
     [] d = "insert-middle" -> <<Page0[1], Page0[2], Page0[3], Page0[4], <<9, 99>>, Page0[5], Page0[6]>>
     [] d = "value+1@program" -> [Page0 EXCEPT ![2] = <<2, 12>>]
+    [] d \in {"seg:relocate+1", "seg:relocate+1,stop-kept"} -> SubSeq(Page0, 2, 6)
+    [] d \in SegDevs -> Page0
     [] d = "eo:none" -> Page1
     [] d = "eo:keep-1" -> <<Page1[1]>>
     [] d = "eo:empty" -> <<>>
@@ -64,9 +88,14 @@ PageOf(d) ==
 Init == dev \in Devs /\ pagedev \in PageDevs
 Next == UNCHANGED <<dev, pagedev>>
 Valid == ValidPI(Apply(dev), L)
-PageOK == ProgramOutputOK(PageOf(pagedev), 1, 3, 20, IF pagedev \in EoDevs THEN 0 ELSE 2)
+PageOK == VerifyPIOK(PageOf(pagedev), SegsOf(pagedev), HeadersOf(pagedev), MaxAddr)
+\* the segment rules are not vacuous: the relocated program satisfies the page rule and is rejected by the segment rule alone
+SegRuleNeeded == LET sg == SegsOf("seg:relocate+1") pg == PageOf("seg:relocate+1") IN
+                 /\ ProgramOutputOK(pg, sg.prog[1], sg.exec[1] - 2 - sg.prog[1], sg.out[1], sg.out[2] - sg.out[1])
+                 /\ ~VerifyPIOK(pg, sg, 0, MaxAddr)
+                 /\ VerifyPIOK(PageOf("seg:execution.begin-1"), SegsOf("seg:execution.begin-1"), 0, MaxAddr)
 \* sanity of the catalogue: the base is valid, and both outcomes occur
-BaseValid == ValidPI(Base, L) /\ ProgramOutputOK(Page0, 1, 3, 20, 2)
+BaseValid == ValidPI(Base, L) /\ VerifyPIOK(Page0, Segs0, 0, MaxAddr) /\ SegRuleNeeded
 Emit == PrintT(<<"REPLAY", ToJson([dev |-> dev, valid |-> Valid, pagedev |-> pagedev, pageok |-> PageOK,
-                                   samehash |-> pagedev \in {"none", "insert-middle", "eo:none", "eo:drop-last"}])>>)
+                                   samehash |-> pagedev \in {"none", "insert-middle", "eo:none", "eo:drop-last", "seg:final_ap=max-1"}])>>)
 =============================================================================
